@@ -142,7 +142,7 @@ def oracle(ctx, text):
 def run(ctx):
     rng = ctx.rng
     n = ctx.n(400, 12000)
-    g = grammar.Gen(rng)
+    g = grammar.Gen(rng, feat={'sqlfor': True})
     model_q = []
     for it in range(n):
         k = rng.randint(1, 4)
